@@ -86,7 +86,7 @@ func regMonad(mo monad) {
 	reg(p+".func.Flap", simple(1, 1, both, "all-success", func(k int) ([]string, []string) {
 		return []string{M(sP(0).curriedTy(1, k, pN(k+1)))}, []string{sP(0).curriedTy(1, k, M(pN(k+1)))}
 	}, func(s scheme, k int, m *member) (string, string, string) {
-		return s.defCurried("c", k, "[]int", s.ints(1, k, s.arg)), fmt.Sprintf("var fl %s = %s.%s(%s(c))", s.curriedTy(1, k, mty), p, m.Name, mo.some), "fl" + curriedCall(s, seq(1, k))
+		return s.defCurried("c", k, "[]int", s.ints(1, k, s.arg)), fmt.Sprintf("var fl %s = %s.%s(%s(c))", s.curriedTy(1, k, mty), p, m.Name, mo.some), curriedApply("fl", s, seq(1, k))
 	}))
 	// Method*(M a1, f)(a2..aK) = M f(a1..aK); K is the arity of f (Method1: 2, Method2: 3, MethodN: N for N >= 3)
 	method := func(flat bool) emitter {
@@ -348,6 +348,20 @@ func regMonad(mo monad) {
 				}
 				b.WriteString(mo.clause(m, v, stmts, res, want))
 				n++
+				if v == "Ap" && k >= 2 {
+					// the same chain with every intermediate builder also applied to two other values
+					// (before and after) whose results are dropped: builders are values
+					var fs strings.Builder
+					fmt.Fprintf(&fs, "q0 := %s.%s(f)", p, m.Name)
+					for i := 1; i <= k; i++ {
+						if i < k {
+							fmt.Fprintf(&fs, "; _ = q%d.Ap(a%d + 1000); q%d := q%d.Ap(a%d); _ = q%d.Ap(a%d + 2000)", i-1, i, i, i-1, i, i-1, i)
+						} else {
+							fmt.Fprintf(&fs, "; q%d := q%d.Ap(a%d)", i, i-1, i)
+						}
+					}
+					b.WriteString(mo.clause(m, "Ap/forked", fs.String(), fmt.Sprintf("q%d", k), "v"))
+				}
 			}
 			if n == 0 {
 				g.skip(m, "no builder method with a known equation on "+typeFam)
@@ -409,7 +423,7 @@ func init() {
 				b.WriteString("\t\t{\n" + s.vals(k))
 				fmt.Fprintf(&b, "\t\tfe := func(%s) %s { %s }\n", s.decl(1, k), rt, body)
 				if curried {
-					b.WriteString(tryM.clause(m, "success"+s.tag, fmt.Sprintf("var c %s = try.%s(fe)", s.curriedTy(1, k, "fp.Try[[]int]"), m.Name), "c"+curriedCall(s, seq(1, k)), "v"))
+					b.WriteString(tryM.clause(m, "success"+s.tag, fmt.Sprintf("var c %s = try.%s(fe)", s.curriedTy(1, k, "fp.Try[[]int]"), m.Name), curriedApply("c", s, seq(1, k)), "v"))
 				} else {
 					b.WriteString(tryM.clause(m, "success"+s.tag, fmt.Sprintf("var tf fp.Func%d[%s, fp.Try[[]int]] = try.%s(fe)", k, s.tys(1, k), m.Name), fmt.Sprintf("tf(%s)", s.args(1, k)), "v"))
 				}
@@ -460,7 +474,7 @@ func init() {
 			fmt.Fprintf(&b, "\t\tfu := func(%s) error { seen = %s; return nil }\n", sInt.decl(1, k), sInt.ints(1, k, sInt.arg))
 			call := fmt.Sprintf("try.%s%s(fu)(%s)", m.Name, explicit, sInt.args(1, k))
 			if curried {
-				call = fmt.Sprintf("try.%s%s(fu)%s", m.Name, explicit, curriedCall(sInt, seq(1, k)))
+				call = curriedApply(fmt.Sprintf("try.%s%s(fu)", m.Name, explicit), sInt, seq(1, k))
 			}
 			fmt.Fprintf(&b, "\t\tchkTryUnit(rt, rec, %s, func() fp.Try[fp.Unit] { return %s }, &seen, v)\n", sig(m, "success"), call)
 			g.sub(m, k, k, b.String())
